@@ -33,6 +33,8 @@ pub struct Bt {
     phase: u64,
     phase_left: usize,
     ops_done: usize,
+    /// heavy-duplicates flavour: a handful of integer keys shared by hundreds of row ids
+    heavy: bool,
 }
 
 const FILE: &str = "idx/bt.idx";
@@ -315,15 +317,15 @@ impl Scenario for Bt {
     const NAME: &'static str = "bt";
 
     fn new(_prop: &str, sw: &Swarm) -> Self {
-        Bt { disk: SimDisk::new(), pm: None, tree: None, model: BTreeMap::new(), sw: sw.clone(), schema_kind: 0, started: false, next_row: 0, phase: 0, phase_left: 0, ops_done: 0 }
+        Bt { disk: SimDisk::new(), pm: None, tree: None, model: BTreeMap::new(), sw: sw.clone(), schema_kind: 0, started: false, next_row: 0, phase: 0, phase_left: 0, ops_done: 0, heavy: sw.big_rows > 0 }
     }
 
     fn next_op(&mut self, rng: &mut Rng, _cx: &mut Ctx) -> Option<Op> {
         if !self.started {
             // first op: schema + optional bulk load
-            let kind = *rng.pick(&[0u64, 0, 1, 2, 2, 3]);
+            let kind = if self.heavy { 0 } else { *rng.pick(&[0u64, 0, 1, 2, 2, 3]) };
             self.schema_kind = kind;
-            let bulk = if rng.chance(1, 3) { rng.usize(120) } else { 0 };
+            let bulk = if !self.heavy && rng.chance(1, 3) { rng.usize(120) } else { 0 };
             let mut keys: Vec<Vec<Lit>> = Vec::new();
             for _ in 0..bulk {
                 keys.push(self.gen_key(rng));
@@ -342,7 +344,8 @@ impl Scenario for Bt {
             2 => [8, 3, 5, 3, 2, 4],
             _ => [2, 1, 1, 6, 4, 8],
         };
-        let k = self.gen_key(rng);
+        let k = if self.heavy { vec![Lit::Int(rng.range(0, 2 + (self.ops_done as i64 / 300)))] } else { self.gen_key(rng) };
+        let w: [u32; 6] = if self.heavy { [30, 0, 3, 1, 1, 1] } else { w };
         Some(match rng.weighted(&w) {
             0 => {
                 // duplicates: sometimes several row ids for one key
@@ -440,7 +443,7 @@ impl Scenario for Bt {
                 let rid: usize = extra.parse().unwrap_or(0);
                 // a key's row-id list must fit into one page; the model refuses what cannot be stored
                 let dup = self.model.get(&k0).map(|v| v.len()).unwrap_or(0);
-                if dup >= 40 {
+                if dup >= if self.heavy { 400 } else { 40 } {
                     return Step::Continue;
                 }
                 sut!(tree.insert(k0.clone(), rid));
